@@ -282,6 +282,19 @@ pub fn replay(sink: &Sink, args: &Args) {
             with_kmer!(k, ev_export(sink, &inp, &nodes, &tmpdir));
             continue;
         }
+        if v["tag"].as_str() == Some("REPLAY-GRAPHQ") {
+            // a finished graph of the path model: the real find_link / edges / walks / max_path on it
+            let key = format!("Q|{}|{}|{}", k, st, v["nodes"]);
+            if !seen.insert(key) {
+                continue;
+            }
+            let reads: Vec<Vec<u8>> = v["inp"].as_array().map(|a| a.iter().map(jbytes).collect()).unwrap_or_default();
+            let inp = GInput { reads, k, stranded: st, thr: 1, mode: Mode::Sum, fam: "tlc-path" };
+            let nodes = nodes_from_json(&v["nodes"]);
+            let mut r = Rng::new(7);
+            with_kmer!(k, ev_graphq(sink, &mut r, &inp, &nodes, "tlc-path"));
+            continue;
+        }
         let rows = rows_from_json(&v["table"]);
         let key = format!("{}|{}|{}", k, st, rows_json(&rows));
         if !seen.insert(key) {
